@@ -44,7 +44,6 @@ func runModeNormal(procs *[]Process) (exitNum int) {
 			}
 		}
 
-		verifYield("sched.spawn")
 		go executeProcess(&(*procs)[i])
 	}
 
@@ -74,12 +73,16 @@ func runModeTry(procs *[]Process, tryErr bool) (exitNum int) {
 
 			if next < len(*procs) {
 				if exitNum < 1 && (*procs)[next].OperatorLogicOr {
-					i++
-					(*procs)[i].SetTerminatedState(true)
-					(*procs)[i].Stdout.Close()
-					(*procs)[i].Stderr.Close()
-					GlobalFIDs.Deregister((*procs)[i].Id)
-					(*procs)[i].State.Set(state.AwaitingGC)
+					// a skipped `||` alternative counts as succeeding: skip every
+					// following `||` alternative as well
+					for ; next < len(*procs) && (*procs)[next].OperatorLogicOr; next++ {
+						i = next
+						(*procs)[i].SetTerminatedState(true)
+						(*procs)[i].Stdout.Close()
+						(*procs)[i].Stderr.Close()
+						GlobalFIDs.Deregister((*procs)[i].Id)
+						(*procs)[i].State.Set(state.AwaitingGC)
+					}
 					continue
 				}
 
@@ -121,12 +124,16 @@ func runModeTryPipe(procs *[]Process, tryPipeErr bool) (exitNum int) {
 		next := i + 1
 		if next < len(*procs) {
 			if exitNum < 1 && (*procs)[next].OperatorLogicOr {
-				i++
-				(*procs)[i].SetTerminatedState(true)
-				(*procs)[i].Stdout.Close()
-				(*procs)[i].Stderr.Close()
-				GlobalFIDs.Deregister((*procs)[i].Id)
-				(*procs)[i].State.Set(state.AwaitingGC)
+				// a skipped `||` alternative counts as succeeding: skip every
+				// following `||` alternative as well
+				for ; next < len(*procs) && (*procs)[next].OperatorLogicOr; next++ {
+					i = next
+					(*procs)[i].SetTerminatedState(true)
+					(*procs)[i].Stdout.Close()
+					(*procs)[i].Stderr.Close()
+					GlobalFIDs.Deregister((*procs)[i].Id)
+					(*procs)[i].State.Set(state.AwaitingGC)
+				}
 				continue
 			}
 
